@@ -459,6 +459,11 @@ def plan_for(prop, tier, seed):
         P["impl"] = [dict(kind="run", index=off + 13 * i, sample=1 if T else 2) for i in range(nrun)]
     if prop in ("C01", "C02", "C03", "C05", "C08"):
         P["impl"] = P.get("impl", []) + [dict(kind="stream", index=off + i) for i in range(15 if (T or prop == "C05") else 3)]
+    # the same hook-level conformance for the default-feature build (TraceRun with ItemHook = FALSE)
+    if prop in ("C02", "C03", "C04", "C07", "C09", "C10"):
+        P["impl"] = P.get("impl", []) + [dict(kind="run", index=off + 5 + 29 * i, sample=1 if T else 2, plain=True) for i in range(8 if T else 2)]
+    if prop in ("C03", "C05"):
+        P["impl"] = P.get("impl", []) + [dict(kind="stream", index=off + 2 * i, plain=True) for i in range(4 if T else 1)]
     if prop in ("C11", "C12", "C13", "C18"):
         P["impl"] = [dict(kind="builder", family="builder_exh", sample=4 if T else 40), dict(kind="builder", family="dense", max_n=14 if T else 12),
                      dict(kind="builder", family="builder_rand", count=400 if T else 100)]
